@@ -2,7 +2,7 @@ CONSTANTS
   DEVS = {}
   NCalls = 3
   KindSet = {"meth", "methmut", "get", "set", "intro"}
-  BodySet <- Bodies_c30
+  BodySet <- Bodies_c30q
   SpawnSet = {TRUE, FALSE}
 INIT MCInit
 NEXT Next
